@@ -31,6 +31,7 @@ static std::string bad_host() {
     static const std::vector<std::string> b = {"a..b.example", ".example", "a$b.example", "ex ample", std::string(64, 'l') + ".example", "[::zz]", "[::1", "[::1]x", "[]", "h.example:0", "h.example:65536", "h.example:abc", "h.example:", "a_b%.example", "a^b.example", "a`b.example", "www.exam|ple.com", "-"};
     std::string h = rcx::pick(b);
     if (rcx::chance(1, 12)) return "[" + std::string((size_t)rcx::range(44, 48), rcx::coin() ? 'a' : ':') + "]"; // bracketed literals around the size of the address buffer (46): never a valid address
+    if (h.size() > 64 && h[0] == 'l' && h[63] == 'l') { std::string big((size_t)rcx::range(64, 70), 'l'); int pos = rcx::range(0, 3); h = pos == 0 ? big : pos == 1 ? big + ".example" : pos == 2 ? "www." + big + ".example" : "www.example." + big; } // a label over 63 octets: only / first / middle / last
     if (h == "-") { h.clear(); for (int i = 0; i < 30; i++) h += "abcdefgh."; h += "example"; } // > 255 bytes
     return h;
 }
